@@ -1,0 +1,9 @@
+//go:build verif
+
+// Contracts for the roothash application API (comment-only).
+package api
+
+//@ func RuntimesToFinalize
+//@   props C01
+//@   ensures ordDet(result)
+//@   note the runtimes to finalize are collected from a Go map; the returned order is established by a sort, never by map iteration (finalization order is part of the replicated execution)
